@@ -367,6 +367,49 @@ const ingKey = "default/z-new"
 // result is what is reported.  The thorough tier and replays always use fresh controllers.
 type pool map[[3]int]*k8s.VerifC17
 
+// followUps: after an object went through the worker's sync function without a panic, the
+// event-driven entry points that re-walk the stored objects are run on the same controller:
+// EndpointSlice, Service and Secret events for everything the fixtures reference (the real
+// syncEndpointSlices / syncService / syncSecret), then the Configurator's endpoint updates
+// directly (with NGINX Plus: updatePlusEndpoints, createUpstreamsForPlus and the Plus API of the
+// FakeManager), AddOrUpdateResources, a ConfigMap update (updateAllConfigs -> UpdateConfig) and
+// the reference checkers.  The first panic is returned with the entry point's name.
+func followUps(c *k8s.VerifC17) (entry, msg, site string) {
+	tru := true
+	p80 := int32(8080)
+	pname := "http"
+	for _, svc := range []string{"svc-a", "svc-b", "svc-d", "svc-ext"} {
+		sl := &discovery_v1.EndpointSlice{ObjectMeta: meta(svc+"-ev", 140), AddressType: discovery_v1.AddressTypeIPv4,
+			Endpoints: []discovery_v1.Endpoint{{Addresses: []string{"10.1.0.9"}, Conditions: discovery_v1.EndpointConditions{Ready: &tru}}},
+			Ports:     []discovery_v1.EndpointPort{{Name: &pname, Port: &p80}}}
+		sl.Labels = map[string]string{"kubernetes.io/service-name": svc}
+		if m, s := guard(func() { _ = c.Sync(sl, false) }); m != "" {
+			return "syncEndpointSlices(" + svc + ")", m, s
+		}
+		sv := &api_v1.Service{ObjectMeta: meta(svc, 100), Spec: api_v1.ServiceSpec{ClusterIP: "10.0.0.7", Selector: map[string]string{"app": "a"},
+			Ports: []api_v1.ServicePort{{Name: "http", Port: 80, TargetPort: intstr.FromInt(8080)}}}}
+		if m, s := guard(func() { _ = c.Sync(sv, false) }); m != "" {
+			return "syncService(" + svc + ")", m, s
+		}
+	}
+	crt, key := selfSigned()
+	for _, sec := range []*api_v1.Secret{
+		{ObjectMeta: meta("tls-secret", 110), Type: api_v1.SecretTypeTLS, Data: map[string][]byte{"tls.crt": crt, "tls.key": key}},
+		{ObjectMeta: meta("htpasswd-secret", 110), Type: "nginx.org/htpasswd", Data: map[string][]byte{"htpasswd": []byte("u:$apr1$x$z")}},
+		{ObjectMeta: meta("apikey-secret", 110), Type: "nginx.org/apikey", Data: map[string][]byte{"client1": []byte("k")}},
+	} {
+		if m, s := guard(func() { _ = c.Sync(sec, false) }); m != "" {
+			return "syncSecret(" + sec.Name + ")", m, s
+		}
+	}
+	for _, n := range k8s.VerifC17FollowUps {
+		if m, s := guard(func() { _ = c.FollowUp(n) }); m != "" {
+			return n, m, s
+		}
+	}
+	return "", "", ""
+}
+
 // safePopulate: a panic while the (valid, admissible) objects of the prior state are being
 // stored is returned to the caller, which reports it against the scenario.
 func safePopulate(c *k8s.VerifC17, ctx int, viaSync bool) (string, string) {
@@ -456,8 +499,12 @@ func runIngOnce(p pool, ing *networking.Ingress, f int, ctx int, combo string, p
 	obj2 := ing.DeepCopy()
 	if pm2 != "" {
 		note(4, "prior-state", pm2, ps2)
-	} else if m, s := guard(func() { _ = c2.Sync(obj2, false); _ = c2.Sync(obj2, true) }); m != "" {
+	} else if m, s := guard(func() { _ = c2.Sync(obj2, false) }); m != "" {
 		note(4, "sync", m, s)
+	} else if e, m, s := followUps(c2); m != "" {
+		note(4, "followup:"+e, m, s)
+	} else if m, s := guard(func() { _ = c2.Sync(obj2, true) }); m != "" {
+		note(4, "sync-delete", m, s)
 	}
 	if len(mine) > 0 && p != nil {
 		p.drop(f, ctx, false)
@@ -1420,8 +1467,12 @@ func runCRDOnce(fam string, obj interface{}, f, ctx int, combo string, panics *[
 	o3 := deepCopy(obj)
 	if pm2 != "" {
 		note(syncStage, "prior-state", pm2, ps2)
-	} else if m, s := guard(func() { _ = c2.Sync(o3, false); _ = c2.Sync(o3, true) }); m != "" {
+	} else if m, s := guard(func() { _ = c2.Sync(o3, false) }); m != "" {
 		note(syncStage, "sync", m, s)
+	} else if e, m, s := followUps(c2); m != "" {
+		note(syncStage, "followup:"+e, m, s)
+	} else if m, s := guard(func() { _ = c2.Sync(o3, true) }); m != "" {
+		note(syncStage, "sync-delete", m, s)
 	}
 	return string(out)
 }
@@ -2729,8 +2780,12 @@ func runObject(kind string, obj interface{}, f int, ctx int, panics *[]PanicInfo
 		}
 		o := deepCopy(obj)
 		if viaSync {
-			if m, s := guard(func() { _ = c.Sync(o, false); _ = c.Sync(o, true) }); m != "" {
+			if m, s := guard(func() { _ = c.Sync(o, false) }); m != "" {
 				note("sync", m, s)
+			} else if e, m, s := followUps(c); m != "" {
+				note("followup:"+e, m, s)
+			} else if m, s := guard(func() { _ = c.Sync(o, true) }); m != "" {
+				note("sync-delete", m, s)
 			}
 			continue
 		}
